@@ -593,3 +593,54 @@ func r17FoundErrorNotOverwritten(c *cx, id string, fns []*eng.Fn) int {
 	}
 	return n
 }
+
+// r17HashVocabularyAgrees (C19.52): the hash functions XEP-0300 names are
+// handled by four functions of package crypto - Parse (name -> Hash), String
+// (Hash -> name), Namespace and the allow-list of MarshalXMLAttr. They know
+// the same set: every Hash constant that Parse can return is in the case lists
+// of the other three (a function that Parse accepts but MarshalXMLAttr refuses
+// decodes and cannot be encoded again; HashOutput.TokenReader panics on it).
+func r17HashVocabularyAgrees(c *cx, id string) {
+	sets := map[string]map[string]bool{}
+	for _, a := range []struct{ key, name string }{{"Parse", "Parse"}, {"String", "Hash.String"}, {"Namespace", "Hash.Namespace"}, {"MarshalXMLAttr", "Hash.MarshalXMLAttr"}} {
+		f := c.fn(id, "crypto", a.name)
+		if f == nil {
+			continue
+		}
+		set := map[string]bool{}
+		f.WalkBody(func(nd ast.Node) bool {
+			if idn, ok := nd.(*ast.Ident); ok {
+				if k, ok := f.Info().Uses[idn].(*types.Const); ok && eng.TypeStr(k.Type()) == "crypto.Hash" {
+					set[k.Name()] = true
+				}
+			}
+			return true
+		})
+		sets[a.key] = set
+	}
+	ref := sets["Parse"]
+	c.r.Floor(id, "hash functions Parse knows", len(ref), 5)
+	for _, k := range []string{"String", "Namespace", "MarshalXMLAttr"} {
+		var missing []string
+		for name := range ref {
+			if !sets[k][name] {
+				missing = append(missing, name)
+			}
+		}
+		for name := range sets[k] {
+			if !ref[name] {
+				missing = append(missing, "+"+name)
+			}
+		}
+		sortStrings(missing)
+		c.r.CheckNamed(id, "crypto."+k, "hash functions handled", "T: the same set of Hash constants as Parse", token.NoPos, len(missing) == 0, "differs from Parse in: "+strings.Join(missing, ", "))
+	}
+}
+
+func sortStrings(s []string) {
+	for i := 1; i < len(s); i++ {
+		for j := i; j > 0 && s[j] < s[j-1]; j-- {
+			s[j], s[j-1] = s[j-1], s[j]
+		}
+	}
+}
